@@ -210,11 +210,6 @@ func (g *gen) intExpr(sc scope, d int) string {
 				v := g.fresh()
 				body := g.intExpr(sc.with(v, true), d-1)
 				head := g.r.IntN(2) == 0
-				if head && body != v && strings.HasPrefix(body, "@") && g.r.IntN(4) != 0 {
-					// avoided (listed finding): a lambda in operator position whose body
-					// form is a bare variable of the enclosing function
-					body = fmt.Sprintf("(+ %s %s)", body, v)
-				}
 				if head {
 					return fmt.Sprintf("((lambda (%s) %s) %s)", v, body, g.intExpr(sc, d-1))
 				}
